@@ -40,7 +40,9 @@ class TypeCollector:
             if isinstance(current_type, (GraphQLObjectType, GraphQLInterfaceType)):
                 for subfield in current_type.fields.values():
                     subfield_type = get_final_type(subfield)
-                    if isinstance(subfield_type, GraphQLObjectType):
+                    if isinstance(
+                        subfield_type, (GraphQLObjectType, GraphQLInterfaceType)
+                    ):
                         stack.append(subfield_type)
                     elif isinstance(subfield_type, GraphQLUnionType):
                         stack.extend(subfield_type.types)
